@@ -81,8 +81,10 @@ func cleanString(str string) string {
 	if str[0] == byte(0) {
 		str = str[1:]
 	}
-	if str[len(str)-1] == byte(0) {
-		str = str[0 : len(str)-2]
+	if n := len(str); n > 1 && str[n-1] == byte(0) {
+		str = str[0 : n-2]
+	} else if n == 1 && str[0] == byte(0) {
+		str = ""
 	}
 	return str
 }
